@@ -74,6 +74,8 @@ OBLIGATIONS = [
     "SkVerif.C15.nested_mi_keeps_time_order",
     "SkVerif.C15.nested_mi_arr3_any_time_labels",
     "SkVerif.C15.mi_to_nested_row_order_irrelevant",
+    "SkVerif.C15.mi_to_arr3_row_order_irrelevant",
+    "SkVerif.C15.mi_any_row_order_nested_arr3_eq_direct",
 ]
 TRUSTED = [
     "hand-written model SkVerif/Model/Panel.lean of data_processing.py / check_X: pandas and numpy primitives (np.stack, reshape, swapaxes, "
@@ -121,8 +123,10 @@ LEVEL_NOTE = ("Proved for the model, for all shapes n,c>=1 (t>=1 where a multi-i
               "since fix e35dbc7), row-order independence of from_long_to_nested, Series and array cells from a 2-D table (since fix 9d494a8), the nestedness predicates, check_X coercions. "
               "Time labels / row order: from_nested_to_multi_index keeps the cells' reading order and keys the rows by the cells' own labels for ANY label list, and nested -> multi-index -> 3-D array is the panel for any "
               "distinct labels (nested_mi_keeps_time_order, nested_mi_arr3_any_time_labels); from_multi_index_to_nested depends on the rows only through each instance's own rows in order and the order of first "
-              "appearance, not on how instances are interleaved (mi_to_nested_row_order_irrelevant). "
-              "Recorded findings kept in the model and proved as such: from_multi_index_to_3d_numpy reads rows by position (m3:row-order-ignored; concrete witness in Props), reserved names (index/time_index/value) break from_nested_to_long, duplicate names drop columns in "
+              "appearance, not on how instances are interleaved (mi_to_nested_row_order_irrelevant), and since fix 319b294 (rows grouped per instance before the reshape; model groupRows) neither does "
+              "from_multi_index_to_3d_numpy (mi_to_arr3_row_order_irrelevant); for every re-interleaving of a panel's canonical frame the direct conversion and multi-index -> nested -> 3-D array both give the panel "
+              "(mi_any_row_order_nested_arr3_eq_direct). "
+              "Recorded findings kept in the model and proved as such: reserved names (index/time_index/value) break from_nested_to_long, duplicate names drop columns in "
               "from_3d_numpy_to_nested. "
               "Only observed by the correspondence (no theorem): the mixed primitive/nested branch (ffill) of from_nested_to_multi_index / from_nested_to_3d_numpy, error kinds on "
               "malformed arguments, 2-D numpy input to the 3-D converters, irrelevance of the cells' Series names (fix 89ac2e4). Not modelled: non-default "
@@ -1036,11 +1040,6 @@ def _walk(c, toks, fails):
         if ovals != exp and named:
             fails.append((op + ":named-series-cells:values", "Series cells carrying a name (%s): %s moved values between columns: got %r expected %r" % (start["snames"], op, ovals[:2], exp[:2])))
             return
-        if ovals != exp and op == "m3" and hi == 0 and start["k"] == "M" and not _grouped(start["rows"]) and ovals == _positional(start):
-            fails.append(("m3:row-order-ignored", "from_multi_index_to_3d_numpy reads the rows of the frame by POSITION (reshape): the frame's rows are not grouped by "
-                          "instance (instance level %r), result %r, the panel (and from_multi_index_to_nested + from_nested_to_3d_numpy) is %r"
-                          % ([r_[0] for r_ in start["rows"]][:8], ovals[:2], exp[:2])))
-            return
         if ovals != exp and sorted(map(repr, ovals)) == sorted(map(repr, exp)):
             fails.append((site + ":instance-order", "hop %d %r: the instances are the original ones in another order: got %r expected %r" % (hi, h, ovals[:4], exp[:4])))
             return
@@ -1080,17 +1079,6 @@ def _grouped(rows):
             seen.add(r[0])
             last = r[0]
     return True
-
-
-def _positional(start):
-    """the rows of a multi-index start frame read by position: values.reshape(n, t, c).swapaxes(1, 2)"""
-    rows = start["rows"]
-    n = len({r[0] for r in rows})
-    t = len({r[1] for r in rows})
-    c = len(start["names"])
-    if n * t != len(rows):
-        return None
-    return [[[float(rows[i * t + q][2][j]) for q in range(t)] for j in range(c)] for i in range(n)]
 
 
 def _commutes(c, out, bigtok):
@@ -1263,9 +1251,6 @@ def oracle(c, out):
     if not via_long and not via_2d and not ids_in_result:
         if dd[0] == "L" and pd_[0] == "L" and dd[1] is not None and pd_[1] is not None and sorted(map(str, dd[1])) != sorted(map(str, pd_[1])):
             pass        # names not carried on one of the ways: compared below only when carried
-        elif dd[2] != pd_[2] and c["direct"][0] == "m3" and c["start"]["k"] == "M" and not _grouped(c["start"]["rows"]) and dd[2] == _positional(c["start"]):
-            fails.append(("m3:row-order-ignored", "the direct conversion from_multi_index_to_3d_numpy reads the rows by POSITION; the frame's rows are not grouped by instance "
-                          "(instance level %r): direct %r, path %r gives %r" % ([r_[0] for r_ in c["start"]["rows"]][:8], dd[2][:2], [h[0] for h in c["hops"]], pd_[2][:2])))
         elif dd[2] != pd_[2]:
             fails.append(("path:differs-from-direct", "path %r gives other values than the direct conversion %r" % ([h[0] for h in c["hops"]], c["direct"][0])))
         carried = all(OUT[h[0]] in ("N", "M", "L") for h in c["hops"]) and c["start"]["k"] in ("N", "M", "L") and all(
